@@ -100,7 +100,15 @@ def run(ctx):
     ctx.check("line-kinds", where, "isinstance(hunk_line, InsertLine)" in kinds_tests and "isinstance(hunk_line, (ContextLine, RemoveLine))" in kinds_tests, "insert lines come from the hunk; context and remove lines consume an original line", construct=str(kinds_tests))
     ins = [n for n in walk_own(fn) if isinstance(n, ast.If) and norm(n.test) == "isinstance(hunk_line, InsertLine)"]
     ctx.check("line-kinds", where, len(ins) == 1 and norm(ins[0].body[0]) == "yield hunk_line.contents", "an inserted line is yielded from the hunk")
-    ctx.check("pass-through", where, any(isinstance(n, ast.While) and norm(n.test) == "line_no < hunk.orig_pos" for n in walk_own(fn)) and any(isinstance(n, ast.YieldFrom) and norm(n.value) == "orig_lines" for n in ast.walk(fn)), "lines before a hunk and after the last hunk are passed through")
+    lead_loop = any(isinstance(n, (ast.While, ast.For)) and "hunk.orig_pos" in norm(n.test if isinstance(n, ast.While) else n.iter) and any(isinstance(y, ast.Yield) for y in ast.walk(n)) for n in walk_own(fn))
+    lead_slice = any(isinstance(n, ast.YieldFrom) and isinstance(n.value, ast.Call) and "hunk.orig_pos" in norm(n.value) and "orig_lines" in norm(n.value) for n in ast.walk(fn))
+    ctx.check("pass-through", where, (lead_loop or lead_slice) and any(isinstance(n, ast.YieldFrom) and norm(n.value) == "orig_lines" for n in ast.walk(fn)), "lines before a hunk and after the last hunk are passed through")
+    # a text that ends before the hunk's position must not go unnoticed: every line taken from the original ahead of or
+    # inside a hunk is taken with next(<iterator>) without a default (which raises when the text is exhausted); a bounded
+    # copy (islice, zip, next with a default) simply yields fewer lines and the hunk is applied at the wrong place
+    quiet = [f"L{c.lineno}:{norm(c)[:50]}" for c in calls_in(fn) if "orig_lines" in [norm(a) for a in c.args[:1]] and ((norm(c.func) == "next" and len(c.args) > 1) or norm(c.func).rsplit(".", 1)[-1] in ("islice", "zip", "zip_longest", "takewhile"))]
+    takes = [c for c in calls_in(fn) if norm(c.func) == "next" and [norm(a) for a in c.args] == ["orig_lines"]]
+    ctx.check("short-text-detected", where, not quiet and len(takes) >= 2, "original lines ahead of and inside a hunk are taken with next(orig_lines), which raises when the text is shorter than the patch expects", construct="; ".join(quiet), message=f"iter_patched_from_hunks copies original lines with {quiet or 'something other than next(orig_lines)'}: when the text ends before the hunk's position nothing raises, the remaining insertions are emitted at the wrong place and a patch that does not match the text is reported as applied")
     rm = [n for n in g.nodes if n.kind == "test" and norm(n.ast) == "isinstance(hunk_line, ContextLine)"]
     ok = len(rm) == 1 and not (set(ys_orig) & g.reach([b for (b, l) in g.succ[rm[0].id] if l == "F"], avoid=[inner[0]], include_src=True))
     ctx.check("line-kinds", where, ok, "a removed line is consumed but not yielded")
@@ -156,6 +164,7 @@ def run(ctx):
     ctx.check("header-positions", f"{DF}:unified_diff_bytes", not bad, f"the hunk header is '@@ -<i1+1>,<len> +<j1+1>,<len> @@' for all {n_rows} tabled ranges, empty ones included (iter_patched_from_hunks copies lines while line_no < orig_pos: an insertion is placed after orig_pos-1 lines)", construct=str(bad[:3]), message=f"the writer anchors ranges differently from what the patcher assumes, e.g. (i1, i2, j1, j2, header) = {bad[:2]}: a pure insertion hunk that is not at the top of the file is applied one line too early, without any conflict")
 
 MUTANTS = [
+    Mutant("leading lines copied with islice", PF, "        while line_no < hunk.orig_pos:\n            orig_line = next(orig_lines)\n            yield orig_line\n            line_no += 1\n", "        from itertools import islice\n\n        for orig_line in islice(orig_lines, hunk.orig_pos - line_no):\n            yield orig_line\n            line_no += 1\n", expect="short-text-detected"),
     Mutant("no-newline marker only for the tail of a hunk", PF, "        terminator = b\"\\n\" + NO_NL if not self.contents.endswith(b\"\\n\") else b\"\"\n        return leadchar + self.contents + terminator", "        return leadchar + self.contents", expect="line-self-terminating"),
     Mutant("empty ranges anchored at the previous line", "breezy/diff.py", "(i1 + 1, i2 - i1, j1 + 1, j2 - j1, lineterm)", "(i1 + 1 if i2 > i1 else i1, i2 - i1, j1 + 1 if j2 > j1 else j1, j2 - j1, lineterm)", expect="header-positions"),
     Mutant("original line yielded before the comparison", PF, "                orig_line = next(orig_lines)\n                if orig_line != hunk_line.contents:\n                    raise PatchConflict(line_no, orig_line, b\"\".join(seen_patch))\n                if isinstance(hunk_line, ContextLine):\n                    yield orig_line\n", "                orig_line = next(orig_lines)\n                if isinstance(hunk_line, ContextLine):\n                    yield orig_line\n                if orig_line != hunk_line.contents:\n                    raise PatchConflict(line_no, orig_line, b\"\".join(seen_patch))\n", expect="compare-before-yield"),
